@@ -9,7 +9,7 @@ TARGETS = {
 PROPS = {
     "C15": dict(
         targets=["c15_hist_a", "c15_hist_b", "c15_hist_c", "c15_hist_d"],
-        shard_mult={"quick": 4},
+        shard_mult={"quick": 4, "thorough": 4},
         level="exploration",
         rule="one tape decodes a system (M-matrices on 9 graph families n<=32, optionally with upwind convection; 2x2-block SPD Kronecker systems; saddle-point systems with "
              "contiguous/interleaved pmask), the configuration of ONE long-lived object (kinds: make_solver<amg>, make_solver<as_preconditioner>, nested make_solver, deflated_solver, "
